@@ -16,6 +16,7 @@ ENUMS = {'Color': {'base': 'byte', 'syms': {'Red': 1, 'Green': 2, 'Blue': 7}, 'f
          'Bits': {'base': 'ushort', 'syms': {'A': 1, 'B': 2, 'C': 4, 'H': 32768}, 'flags': True}}
 STRUCTS = {
     'Pt': [('x', 'short'), ('y', 'short')],
+    'Big': [('l', 'long'), ('u', 'ulong')],
     'Fix': [('a', ('arr', 'int', 3)), ('name', ('chararr', 6)), ('p', ('arr', 'Pt', 2)), ('e', ('arr', 'Color', 2)),
             ('d', 'double'), ('u', 'ubyte')],
 }
@@ -25,6 +26,9 @@ TABLES = {
     'Other': [('v', ('vec', 'ushort'), None), ('f', 'float', 1.5)],
     'Rec': [('r', 'Rec', None), ('n', 'int', 0), ('k', ('vec', 'Rec'), None)],
     'Node': [('name', 'string', None), ('kids', ('uvec', 'Tree'), None), ('single', ('union', 'Tree'), None), ('n', 'int', 0)],
+    'Req': [('a', 'string', None), ('b', ('vec', 'int'), None), ('c', 'Leaf', None), ('d', 'int', 0)],
+    'Nums': [('l', 'long', 0), ('u', 'ulong', 0), ('vl', ('vec', 'long'), None), ('vu', ('vec', 'ulong'), None), ('big', 'Big', None),
+             ('vbig', ('vec', 'Big'), None), ('i', 'int', 0), ('w', 'uint', 0)],
     'Sub': [('id', 'uint', 0), ('tag', 'string', None), ('pt', 'Pt', None)],
     'Root': [('b', 'bool', False), ('i8', 'byte', -3), ('u8', 'ubyte', 0), ('i16', 'short', 0), ('u16', 'ushort', 500),
              ('i32', 'int', 0), ('u32', 'uint', 0), ('i64', 'long', 0), ('u64', 'ulong', 0), ('f32', 'float', 0.0),
@@ -36,12 +40,16 @@ TABLES = {
              ('b64', ('b64', False), None), ('b64u', ('b64', True), None), ('nest64', ('nested64', 'Sub'), None),
              ('other', 'Other', None), ('any2', ('union', 'Any'), None), ('vfix', ('vec', 'Fix'), None)],
 }
-REQUIRED = {('Sub', 'tag')}
+REQUIRED = {('Sub', 'tag'), ('Req', 'a'), ('Req', 'b'), ('Req', 'c')}
 UNIONS = {'Any': [('Leaf', 'Leaf'), ('Other', 'Other'), ('Pt', 'Pt'), ('Str', 'string')],
           'Tree': [('Node', 'Node'), ('Leaf', 'Leaf'), ('Other', 'Other')]}   # code = index + 1
-ROOTS = ['Root', 'Leaf', 'Other', 'Sub', 'Rec', 'Node', 'Pt', 'Fix']
+ROOTS = ['Root', 'Leaf', 'Other', 'Sub', 'Rec', 'Node', 'Req', 'Nums', 'Pt', 'Fix']
 
-BOUNDARY_INTS = lambda lo, hi: [lo, hi, 0, 1, -1 if lo < 0 else 1, lo + 1, hi - 1, 127, 128, 255, 256, 65535, 65536]
+# powers of ten and of two with their neighbours: digit-count boundaries of the integer printers
+_GRID = sorted(set([10 ** k + d for k in range(1, 20) for d in (-1, 0, 1)] + [2 ** k + d for k in (31, 32, 33, 63) for d in (-1, 0, 1)] +
+                   [4294967296, 5000000000, 7123456789, 9999999999, 10000000000, 4294967295, 999999999, 1000000000, 99999999999]))
+BOUNDARY_INTS = lambda lo, hi: [lo, hi, 0, 1, -1 if lo < 0 else 1, lo + 1, hi - 1, 127, 128, 255, 256, 65535, 65536] + \
+    [x for x in _GRID if lo <= x <= hi] + [-x for x in _GRID if lo <= -x]
 
 
 def is_scalar(t):
@@ -94,6 +102,9 @@ class Gen:
             if t[0] == 'chararr':
                 n = r.randint(0, t[1])
                 s = self.string(t[1])[:n]
+                if r.random() < 0.3:
+                    # full array whose LAST byte needs a JSON escape
+                    s = (bytes(r.choice(b'abcXYZ019 /') for _ in range(t[1])))[:t[1] - 1] + bytes([r.choice([10, 9, 13, 8, 12, 0x22, 0x5c, 1, 0x1f])])
                 if self.text == 'utf8':
                     # keep it valid UTF-8 after truncation
                     while True:
